@@ -79,7 +79,8 @@ def generate(rng):
             ops.append({"op": "other_actor", "n_paths": rng.choice([1, 4]), "torch_seed": rng.seed31()})
         init = None
         if rng.chance(0.2):
-            init = {"HestonStock": [1.05, 0.05], "RoughBergomiStock": [1.05, 0.05]}.get(pkind, [1.05])
+            s0 = rng.choice([1.05, 1.05, 3.0])
+            init = {"HestonStock": [s0, 0.05], "RoughBergomiStock": [s0, 0.05]}.get(pkind, [s0])
         ops.append({"op": "price", "hedge": hedge, "n_paths": rng.npaths([1, 2, 3, 5, 8, 20]), "n_times": rng.choice([1, 1, 2, 3]),
                     "init_state": init, "torch_seed": rng.seed31(), "k": rng.choice([0.25, -0.125, 1.0, -0.5, -4.0, 3.0, -8.0]),
                     "clone": rng.chance(0.3)})
